@@ -175,11 +175,12 @@ fn main() -> Result<(), Box<dyn std::error::Error>> {
         });
 
         info!("Config autoreloader: {}", match config.general.autoreload {
-            Some(interval) => format!("{} ms", interval),
-            None => "disabled".into(),
+            Some(interval) if interval > 0 => format!("{} ms", interval),
+            _ => "disabled".into(),
         });
 
-        if let Some(interval) = config.general.autoreload {
+        // An interval of zero cannot be scheduled (the timer panics): it means "disabled".
+        if let Some(interval) = config.general.autoreload.filter(|interval| *interval > 0) {
             let mut autoreload_interval = tokio::time::interval(tokio::time::Duration::from_millis(interval));
             let autoreload_client_server_map = client_server_map.clone();
 
